@@ -39,6 +39,7 @@ SHAPES = {
     "ints": ("", "<x>5 6</x>"),
     "twice": ("", "<x>5</x><x>6</x>"),
     "nil": ("", f'<x {XSI} xsi:nil="true"/>'),
+    "nilAttr": ("", f'<x {XSI} a="1" xsi:nil="true"/>'),
     "nilText": ("", f'<x {XSI} xsi:nil="true">5</x>'),
     "nilBad": ("", f'<x {XSI} xsi:nil="maybe"/>'),
     "leaf": ("", "<x><v>1</v></x>"),
@@ -84,6 +85,8 @@ MODELS["qname"] = dataclasses.make_dataclass(
 MODELS["modelAndWildcard"] = dataclasses.make_dataclass(
     "KModelAndWildcard", [("x", Optional[pm.SLeaf], dataclasses.field(default=None, metadata={"type": "Element"})),
                           ("rest", list[object], dataclasses.field(default_factory=list, metadata={"type": "Wildcard", "namespace": "##any"}))])
+MODELS["nillableModel"] = dataclasses.make_dataclass(
+    "KNillableModel", [("x", Optional[pm.SNil], dataclasses.field(default=None, metadata={"type": "Element"}))])
 _WRAP: dict = {}
 
 
